@@ -73,6 +73,11 @@ def plan(tier, seed):
     else:
         # (three samplings: every mnemonic is represented by a different one of its statements each time)
         cases += [{'kind': 'trans', 'prog': n, 'cpu': c, 'end': e, 'rep': k} for n, c in sections for e in (0, 1) for k in range(3)]
+    # family workload: the predecessor selects ANOTHER processor of the same code generator and switches one of that generator's
+    # ON/OFF settings on; the successor is a section of a golden program for that generator
+    fam = family_cases()
+    # (cheap: run completely in both tiers)
+    cases += [{'kind': 'family', 'prog': n, 'cpu': c, 'other': y, 'stmt': st} for n, c, y, st in fam]
     # guarantee that every program appears once as successor of a generated predecessor and once in a pair
     for i, n in enumerate(names):
         cases.append({'kind': 'gen', 'succ': n})
@@ -138,6 +143,92 @@ def vocab_file(rng, prog):
     if rng.random() < 0.4:
         lines.append('\tend')
     return '\n'.join(lines) + ('\n' if rng.random() < 0.8 else '')
+
+
+_FAMILY = None
+
+
+def family_cases():
+    """[(program, cpu of one of its sections, another cpu of the same code generator, setting statement)] - the code generator modules
+    of the tree under test are read for their AddCPU(...) and AddONOFF(...) registrations (names only)"""
+    global _FAMILY
+    if _FAMILY is None:
+        from .. import build
+        mod_cpus, mod_onoff, cpu_mod = {}, {}, {}
+        for fn in sorted(os.listdir(build.REPO)):
+            if not (fn.startswith('code') and fn.endswith('.c')):
+                continue
+            try:
+                txt = open(os.path.join(build.REPO, fn), encoding='latin-1').read()
+            except OSError:
+                continue
+            cpus = re.findall(r'AddCPU\w*\(\s*"([^"]+)"', txt)
+            if not cpus:
+                continue
+            mod_cpus[fn] = cpus
+            names = set(x.lower() for x in re.findall(r'AddONOFF\(\s*"([A-Z0-9_]+)"', txt))
+            if 'SupAllowedCmdName' in txt:
+                names.add('supmode')
+            if 'CustomAvailCmdName' in txt:
+                names.add('custom')
+            mod_onoff[fn] = sorted(names)
+            for c in cpus:
+                cpu_mod[c.lower()] = fn
+        out = []
+        for prog in corpus.programs():
+            for cpu in sorted(vocabulary(prog)):
+                fn = cpu_mod.get(cpu.lower())
+                if not fn:
+                    continue
+                others = [c for c in mod_cpus[fn] if c.lower() != cpu.lower()] or [cpu]
+                picks = sorted({others[0], others[-1], others[len(others) // 2]})
+                for y in picks:
+                    for n in mod_onoff[fn] + ['padding', 'bigendian']:
+                        out.append((prog.name, cpu, y, '\t%s\ton' % n))
+        _FAMILY = out
+    return _FAMILY
+
+
+def run_family(case, ctx):
+    out = ctx.out
+    prog = corpus.Prog(case['prog'])
+    cpu = case['cpu']
+    lines = vocabulary(prog).get(cpu, [])
+    if not lines:
+        return
+    tag = '%s/%s behind cpu %s /%s' % (prog.name, cpu, case['other'], case['stmt'].replace('\t', ' '))
+    out.sample = {'family': tag}
+    os.makedirs(ctx.path('t'), exist_ok=True)
+    os.makedirs(ctx.path('inc'), exist_ok=True)
+    prog.stage(ctx.path('inc'))
+    ctx.write('t/pred.asm', '\tcpu\t%s\n%s\n%s' % (case['other'], case['stmt'], '\tend\n' if ctx.rng.random() < 0.5 else ''))
+    ctx.write('t/succ.asm', '\tcpu\t%s\n%s\n' % (cpu, '\n'.join(lines)))
+    flags = list(prog.flags)
+    r0, ps0, dg0, nf0 = run_set(ctx, ['t/succ.asm'], flags, ['inc'], 'solo')
+    r1, ps1, dg1, nf1 = run_set(ctx, ['t/pred.asm', 't/succ.asm'], flags, ['inc'], 'multi')
+    if r0.timed_out or r1.timed_out:
+        out.inconc('timeout')
+        return
+    for r in (r0, r1):
+        if r.san:
+            out.violate(r.san, '%s: %s' % (tag, r.err.decode('latin-1')[-400:]))
+            return
+    if r1.rc == 3 and r0.rc != 3:
+        out.obs['family_predecessor_fatal'] += 1
+        return
+    d0 = [(d[0], d[1], d[2]) for d in dg0['t/succ.asm']]
+    d1 = [(d[0], d[1], d[2]) for d in dg1['t/succ.asm']]
+    if ps0['t/succ.asm'] != ps1['t/succ.asm'] or d0 != d1:
+        what = 'code file' if ps0['t/succ.asm'] != ps1['t/succ.asm'] else 'diagnostics'
+        diff = [x for x in d1 if x not in d0][:3] + [x for x in d0 if x not in d1][:3]
+        out.violate('section-depends-on-previous-file:%s:%s:%s' % (what.replace(' ', '-'), case['stmt'].split('\t')[1], cpu.lower()),
+                    '%s: the section gives another %s than alone; differing diagnostics %s' % (tag, what, diff))
+        return
+    out.obs['files_equal_to_solo'] += 1
+    out.obs['invocations'] += 2
+    out.sets['family_settings'].add(case['stmt'].split('\t')[1])
+    out.nontrivial = True
+    out.sig = ('family', tag)
 
 
 MAX_MNEMONICS = 70
@@ -298,6 +389,8 @@ def run_case(case, ctx):
     kind = case['kind']
     if kind == 'trans':
         return run_trans(case, ctx)
+    if kind == 'family':
+        return run_family(case, ctx)
     if kind == 'pair':
         a = byname[case['first']] if 'first' in case else rng.choice(progs)
         group = byflags[tuple(a.flags)]
